@@ -257,7 +257,16 @@ where
                         } else {
                             let mut st = stats.borrow_mut();
                             st.evaluations += 1;
-                            test(&case, Some(&mut st))
+                            // a panic outside the call under judgement (e.g. inside a built-in error type that the
+                            // oracle itself calls) must not end the whole check: the case is skipped and counted;
+                            // panics of deserr::deserialize itself are C12's business and are caught where they are judged
+                            match std::panic::catch_unwind(std::panic::AssertUnwindSafe(|| test(&case, Some(&mut st)))) {
+                                Ok(v) => v,
+                                Err(_) => {
+                                    st.class("skipped: panic outside the judged call");
+                                    Verdict::Ok
+                                }
+                            }
                         };
                         match v {
                             Verdict::Ok => Ok(()),
